@@ -109,14 +109,16 @@ func (d *driver) abstractTrace(calls []string, cache string) map[string][]sysEve
 				continue
 			}
 			w := strings.Contains(args, "O_CREAT") || strings.Contains(args, "O_WRONLY") || strings.Contains(args, "O_RDWR")
-			wfd[ret] = w
-			if strings.Contains(args, "O_CREAT") {
-				// the path actually opened (through a symlink if any) is in the fd annotation
-				if fp := reFdPath.FindStringSubmatch(ret + tail); fp != nil {
-					if r2, ok := relOf(fp[2]); ok {
-						rel = r2
-					}
+			// the path actually opened (through a symlink if any) is in the fd annotation;
+			// descriptors are keyed by number AND path: with several threads a number can be
+			// reused between an unfinished close and its resumption
+			if fp := reFdPath.FindStringSubmatch(ret + tail); fp != nil {
+				if r2, ok := relOf(fp[2]); ok {
+					rel = r2
 				}
+			}
+			wfd[ret+"|"+rel] = w
+			if strings.Contains(args, "O_CREAT") {
 				add(sysEvent{kind: "create", rel: rel})
 			}
 		case "write", "pwrite64", "writev":
@@ -133,10 +135,10 @@ func (d *driver) abstractTrace(calls []string, cache string) map[string][]sysEve
 				continue
 			}
 			if rel, ok := relOf(fp[2]); ok {
-				if wfd[fp[1]] {
+				if wfd[fp[1]+"|"+rel] {
 					add(sysEvent{kind: "close", rel: rel})
 				}
-				delete(wfd, fp[1])
+				delete(wfd, fp[1]+"|"+rel)
 			}
 		case "newfstatat", "stat", "lstat", "statx":
 			q := reQuoted.FindStringSubmatch(args)
